@@ -886,6 +886,7 @@ struct Value {
 
     void Merge(Value &&val) {
         if (isUndefined()) {
+            reset();
             setTypeToArray();
         }
 
@@ -909,6 +910,7 @@ struct Value {
 
     void Merge(const Value &val) {
         if (isUndefined()) {
+            reset();
             setTypeToArray();
         }
 
